@@ -1,7 +1,7 @@
 (* C02 -- the nesting limit bounds tree depth and recursion for any input.  Statements only; proofs in
    proofs/{BlockProofs,InlineProofs,CoreProofs}.v; see DESIGN.md section 6 C02. *)
 From Coq Require Import String.
-From MdIt Require Import Prims Tables Ruler Tree Render Block Inline Core Dump Dispatch BlockProofs InlineProofs CoreProofs DepthProofs InlineDepthProofs TreeDepthProofs.
+From MdIt Require Import Prims Tables Ruler Tree Render Block Inline Core Dump Dispatch BlockProofs InlineProofs CoreProofs DepthProofs InlineDepthProofs TreeDepthProofs ConfigProofs.
 Local Open Scope string_scope.
 Local Open Scope list_scope.
 Local Open Scope N_scope.
@@ -77,6 +77,15 @@ Theorem C02_tree_depth_bounded_without_emphasis : forall fuel m src d cc ic,
   (depth_of (d_root d) <= fold_left (fun dd rule => step_bound (md_maxnest m) (md_maxnest m) rule dd) cc 0%nat)%nat.
 Proof. exact parse_tree_depth. Qed.
 
+(* the hypothesis about the inline chain discharged: every parser assembled from the shipped plugins without the
+   emphasis (m), strikethrough (s) and composite CommonMark (C) letters -- any other letters, any order *)
+Theorem C02_shipped_without_emphasis : forall cfg nest fuel src d cc,
+  forallb (fun c => negb ((c =? 109) || (c =? 115) || (c =? 67))) cfg = true ->
+  let m := build_md cfg nest in
+  snd (r_iter (md_core m)) = inr cc -> snd (parse fuel m src) = inr d ->
+  (depth_of (d_root d) <= fold_left (fun dd rule => step_bound (md_maxnest m) (md_maxnest m) rule dd) cc 0%nat)%nat.
+Proof. exact shipped_without_emphasis_depth. Qed.
+
 (* the bound for the usual chain block -> inline (-> sourcepos): 3 * limit + 1 *)
 Example C02_bound_value : fold_left (fun dd rule => step_bound 100 100 rule dd) [C_BLOCK; C_INLINE; C_SOURCEPOS] 0%nat = 301%nat.
 Proof. vm_compute. reflexivity. Qed.
@@ -98,6 +107,7 @@ Proof. vm_compute. split; reflexivity. Qed.
 Print Assumptions C02_block_recursion_bounded.
 Print Assumptions C02_inline_recursion_bounded.
 Print Assumptions C02_parse_recursion_bounded.
+Print Assumptions C02_shipped_without_emphasis.
 Print Assumptions C02_block_tree_depth_bounded.
 Print Assumptions C02_inline_depth_bounded_without_emphasis.
 Print Assumptions C02_tree_depth_bounded_without_emphasis.
